@@ -11,6 +11,7 @@ read cannot be recorded at all:
  R4 extraction keeps every accessed register parameter (no filter on the register)
 How: R2 by may-flow from each slot to the read-flag setter (through helpers), receiver traced to the returned state, and
 by specialisation per slot (for Store.value the four cases plain register x exact stack offset).
+ R2+ (added after seed C14c) get_offset_if_exact_stack_pointer requires the stack frame to be the UNIQUE target of the address
 """
 from .lib import slots as SL
 from .lib import sym as S
